@@ -248,8 +248,8 @@ Qed.
 
 Lemma compile_no_panic c : no_panic_inside (compile c).
 Proof.
-  induction c as [a|t|t|t body a IH|t g x r m v|m v|m v|m|ps|t|t m ln] using ProofsFrame.cmd_ind';
-    intros l s HI Hp; cbn [compile] in Hp.
+  induction c as [a|t|t|t body a IH|t g x r m v|m v|m v|m|ps|t|t m ln|m vals body IH|] using ProofsFrame.cmd_ind';
+    intros l s HI Hp; try rewrite compile_call in Hp; cbn [compile] in Hp.
   - apply (temp_global_no_panic a l s HI Hp).
   - (* probe *)
     cbn [app] in Hp. rewrite <- app_assoc in Hp. cbn [app] in Hp.
@@ -258,17 +258,17 @@ Proof.
   - apply (temp_global_no_panic t l s HI Hp).
   - (* call *)
     assert (Hp' : panics (IOp (OPush CVolatile) EIgnore :: temp_volatile t ++
-              (IOp (OPush (CRegular a)) EIgnore :: flat_map compile body ++ [IOp OPop EIgnore])
+              (IOp (OPush (CRegular a)) EIgnore :: flat_map compile (cut_return body) ++ [IOp OPop EIgnore])
               ++ IOp OPop EIgnore :: l) s).
     { cbn [app] in *. rewrite <- !app_assoc in Hp. cbn [app] in Hp.
       rewrite <- !app_assoc. cbn [app]. rewrite <- !app_assoc in Hp. exact Hp. }
     apply (bracket_no_panic t (IOp (OPush (CRegular a)) EIgnore
-             :: flat_map compile body ++ [IOp OPop EIgnore]) l s HI); [|exact Hp'].
+             :: flat_map compile (cut_return body) ++ [IOp OPop EIgnore]) l s HI); [|exact Hp'].
     intros s1 HI1 Hc1 H. cbn [app] in H. rewrite <- app_assoc in H. cbn [app] in H.
     set (s2 := mkVS (vars s1) (ctxs s1 ++ [CRegular a])).
     assert (Es2 : step s1 (OPush (CRegular a)) = Some (s2, RUnit)) by reflexivity.
     destruct (panics_op _ _ _ _ _ _ Es2 H) as [H2|[H2 _]]; [|discriminate].
-    destruct (no_panic_flat_map body IH _ s2 (inv_step _ _ _ _ HI1 Es2) H2) as (s3 & HI3 & Hs3 & Hp3).
+    destruct (no_panic_flat_map (cut_return body) (Forall_cut_return _ _ IH) _ s2 (inv_step _ _ _ _ HI1 Es2) H2) as (s3 & HI3 & Hs3 & Hp3).
     assert (Hlen3 : length (ctxs s3) = S (length (ctxs s1))).
     { assert (E : length (shape s3) = length (shape s2)) by congruence.
       unfold shape in E. rewrite !map_length in E. rewrite E. cbn. rewrite app_length. cbn. lia. }
@@ -320,6 +320,14 @@ Proof.
       [|exact Hp].
     intros s1 HI1 Hc1 H. cbn [app] in H.
     apply (panics_plain _ _ _ _ HI1 H ltac:(discriminate) I).
+  - (* for *)
+    revert s HI Hp. induction vals as [|v vals IHv]; intros s HI Hp; cbn [flat_map app] in Hp; [eauto|].
+    rewrite <- app_assoc in Hp. cbn [app] in Hp.
+    destruct (panics_plain _ _ _ _ HI Hp ltac:(discriminate) I) as (s1 & HI1 & Hs1 & Hp1).
+    destruct (no_panic_flat_map body IH _ s1 HI1 Hp1) as (s2 & HI2 & Hs2 & Hp2).
+    destruct (IHv s2 HI2 Hp2) as (s3 & HI3 & Hs3 & Hp3).
+    exists s3. split; [exact HI3|]. split; [congruence|exact Hp3].
+  - cbn [app] in Hp. eauto.
 Qed.
 
 Lemma script_no_panic cs s : Inv s -> ~ panics (compile_script cs) s.
